@@ -375,8 +375,68 @@ fn check_cli_files(ctx: &Ctx, st: &mut Stats) {
     }
 }
 
+/// Transform2 itself, and states of user-defined groups whose operations have non-symmetric
+/// linear parts (p4, p3, p6 through the public WallpaperGroup struct), through JSON text.
+fn check_transforms_and_custom_groups<R: Rng>(rng: &mut R, st: &mut Stats) {
+    use packing::{CrystalFamily, Transform2, WallpaperGroup};
+    // 1. a bare transform
+    st.eval();
+    let t = Transform2::new(rng.gen_range(-7., 7.), (rng.gen_range(-3., 3.), rng.gen_range(-3., 3.)));
+    let txt = serde_json::to_string(&t).unwrap_or_default();
+    match serde_json::from_str::<Transform2>(&txt) {
+        Ok(t2) => {
+            let (a, b) = (to_affine(&t), to_affine(&t2));
+            let bits = |x: &Affine| f64_bits_vec(&[x.m[0][0], x.m[0][1], x.m[1][0], x.m[1][1], x.t[0], x.t[1]]);
+            if bits(&a) != bits(&b) || serde_json::to_string(&t2).unwrap_or_default() != txt {
+                st.violation(viol("serde", "transform-changes-through-json", &json!({"transform_json": txt}), json!({"before": {"m": a.m, "t": a.t}, "after": {"m": b.m, "t": b.t}})));
+                return;
+            }
+            st.nontrivial(hash_str(&txt));
+        }
+        Err(e) => {
+            st.violation(viol("serde", "cannot-read-back-own-output", &json!({"transform_json": txt}), json!({"error": e.to_string()})));
+            return;
+        }
+    }
+    // 2. states of p4 / p3 / p6
+    let (name, family, ops): (&str, CrystalFamily, Vec<&str>) = match rng.gen_range(0, 3) {
+        0 => ("p4", CrystalFamily::Tetragonal, vec!["x,y", "-y,x", "-x,-y", "y,-x"]),
+        1 => ("p3", CrystalFamily::Hexagonal, vec!["x,y", "-y,x-y", "-x+y,-x"]),
+        _ => ("p6", CrystalFamily::Hexagonal, vec!["x,y", "-y,x-y", "-x+y,-x", "-x,-y", "y,-x+y", "x-y,x"]),
+    };
+    let wg = WallpaperGroup { name, family, wyckoff_str: ops };
+    st.eval();
+    let cv = json!({"custom_group": name});
+    if rng.gen_bool(0.5) {
+        if let Ok(mut s) = PackedState::from_group(LineShape::polygon(rng.gen_range(3, 8)).unwrap(), &wg) {
+            {
+                use packing::traits::Basis;
+                let mut b = s.generate_basis();
+                for h in b.iter_mut() {
+                    let v = h.get_value();
+                    h.set_value(v * rng.gen_range(0.5, 1.) + rng.gen_range(0., 0.3));
+                }
+            }
+            let _ = &mut s;
+            let o = s.shape.oshape();
+            roundtrip!(&s, PackedState<LineShape>, &cv, st, false, o.clone());
+        }
+    } else if let Ok(s) = PotentialState::from_group(LJShape2::from_trimer(0.637556, 120., 1.), &wg) {
+        {
+            use packing::traits::Basis;
+            let mut b = s.generate_basis();
+            for h in b.iter_mut() {
+                let v = h.get_value();
+                h.set_value(v * rng.gen_range(0.5, 1.) + rng.gen_range(0., 0.3));
+            }
+        }
+        let o = OShape::Discs(vec![]);
+        roundtrip!(&s, PotentialState<LJShape2>, &cv, st, false, o.clone());
+    }
+}
+
 pub fn run(ctx: &Ctx) {
-    ctx.set_rule("states of both kinds, all groups and shapes with random full-precision parameters (plus the exact ends of each range and one ulp inside them), a share of them optimised first, are serialised with serde_json::to_string, read back with from_str and serialised again: the two texts must be identical and score and Cartesian placements bit-identical; the SVG document is parsed: its <use href=#mol> transforms must be exactly the placements and their 8 nearest lattice images, each once, in matrix(a b c d e f) column order (linear part bit-exact, translation within 1e-12 of the independent lattice), and #mol must be the shape. The JSON/SVG files written by the real binary get the same treatment (file re-serialises to itself byte for byte, reproduces the logged score bit for bit). Non-trivial = states with >= 3 parameters that are not short decimals; distinct by parameter bits");
+    ctx.set_rule("states of both kinds, all groups and shapes with random full-precision parameters (plus the exact ends of each range and one ulp inside them), a share of them optimised first, are serialised with serde_json::to_string, read back with from_str and serialised again: the two texts must be identical and score and Cartesian placements bit-identical; the SVG document is parsed: its <use href=#mol> transforms must be exactly the placements and their 8 nearest lattice images, each once, in matrix(a b c d e f) column order (linear part bit-exact, translation within 1e-12 of the independent lattice), and #mol must be the shape. Bare Transform2 values with arbitrary rotations, and states of user-defined p4/p3/p6 groups (non-symmetric linear parts), go through the same text round trip. The JSON/SVG files written by the real binary get the same treatment (file re-serialises to itself byte for byte, reproduces the logged score bit for bit). Non-trivial = states with >= 3 parameters that are not short decimals; distinct by parameter bits");
     let n = ctx.tier.pick(3_000u64, 250_000u64);
     let nsvg = ctx.tier.pick(60u64, 3_000u64);
     let prev = std::panic::take_hook();
@@ -387,6 +447,9 @@ pub fn run(ctx: &Ctx) {
         }
         for _ in 0..nsvg {
             check(&gen_case(rng, true), st);
+        }
+        for _ in 0..n / 20 {
+            check_transforms_and_custom_groups(rng, st);
         }
     });
     std::panic::set_hook(prev);
